@@ -99,7 +99,7 @@ def pytypes(names):
 FMT_FN = {"constTrue": (lambda instance: True), "constFalse": (lambda instance: False),
           "email": F.is_email, "ipv4": F.is_ipv4, "ipv6": F.is_ipv6, "date": F.is_date}
 RAISES = {"ValueError": ValueError, "AddressValueError": ipaddress.AddressValueError}
-ID_FN = {"$id": V._id_of, "id": (lambda schema: schema.get(u"id", u""))}
+ID_FN = {"$id": V._id_of, "id": V._legacy_id_of}
 
 # the class-level registry as the import left it: the format oracle answers from here
 ORIG_CLS_FORMATS = dict(F.FormatChecker.checkers)
